@@ -414,6 +414,24 @@ def run(tier="quick", replay=None):
                 "OriginalDialect dispatches opcode %d to %s but the consensus dialect dispatches it to %s" % (
                     v, a[1], cimpl))
 
+    # ---------------- every implemented opcode has a name (opcode -> name is total) ------------
+    kw_by_val = {}
+    for r in kw:
+        kw_by_val.setdefault(r["bytes"], r)
+    for who, small, wide, maxv in (("ORIG", orig_small, {}, 0), ("CHIA", chia_small, chia_wide, maxver)):
+        for v, a in sorted(list(small.items()) + list(wide.items())):
+            if a[0] not in ("fn", "guard"):
+                continue
+            nbytes = 1 if v < 256 else 4
+            row = kw_by_val.get(v.to_bytes(nbytes, "big"))
+            lim = maxv if who == "CHIA" else 0
+            R.check(row is not None and row["version"] <= lim, "R20.NAMED", "R20.NAMED|%s|%d" % (who, v),
+                    ORIG_OP if who == "ORIG" else CHIA_OP,
+                    "auto: implemented opcode %d is named %r (since version %s)" % (v, row["name"] if row else None, row["version"] if row else None),
+                    "%s dispatches opcode %d to %s but the keyword table has %s: the disassembler cannot name an operator the "
+                    "evaluator runs (opcode -> name is not total)" % (
+                        who, v, a[-1], "no row for it" if row is None else "it only from version %d" % row["version"]))
+
     # ---------------- RUN: version -> dialect + flags ---------------------------
     run_sel = {}
     f = prog.fn(RUNNER)
